@@ -747,7 +747,7 @@ Qed.
 Lemma named_partial h : forall st, uses_ok is_named h (y_hist st h).
 Proof.
   induction h as [|e h IH]; intros st; [exact I|].
-  destruct e as [|k v|c]; cbn [y_hist uses_ok]; try apply IH.
+  destruct e as [|k v|c|]; cbn [y_hist uses_ok]; try apply IH.
   pose proof (y_use_named st k v) as H. destruct (y_use st k v) as [st' r]. simpl in H. split; auto.
 Qed.
 
@@ -773,3 +773,19 @@ Proof. vm_compute. auto. Qed.
 
 Lemma c10_contract_refuted : ~ C10_contract.
 Proof. intros H. specialize (H [HCancel CBusy; HUse KClosVar VEval]). vm_compute in H. discriminate. Qed.
+
+(** ---------------------------------------------------------------- the slot of a function literal *)
+
+Lemma literal_slot_refuted :
+  crashed (slot_run slot_witness) = true
+  /\ started (slot_run [SLit 1; SGo; SLit 2; SGo; SLit 3; SGo]) = [3; 2; 1].
+Proof. vm_compute. auto. Qed.
+
+(** a go statement that directly follows its literal starts that literal's value, whatever happened before *)
+Lemma literal_slot_adjacent l g :
+  crashed (slot_run l) = false ->
+  let s := slot_run (l ++ [SLit g; SGo]) in crashed s = false /\ hd_error (started s) = Some g.
+Proof.
+  intros H. unfold slot_run in *. rewrite fold_left_app. simpl.
+  destruct (fold_left slot_step l (mkSlot None [] [] false)); simpl in *. auto.
+Qed.
